@@ -295,6 +295,12 @@ def ffsp_env(J, S_, M, flat=True):
     return G._ffsp_env(J, S_, M, 1, 5, flat)
 
 
+def ffsp_step_bound(rec):
+    """C02_ffsp_step_bound: (J*S*(Dmax+2) + 2) * S*M"""
+    dmax = max([0] + [x for row in rec["rt"] for x in row])
+    return (rec["J"] * rec["S"] * (dmax + 2) + 2) * rec["S"] * rec["M"]
+
+
 def ffsp_py_c02(recs, coll):
     ok = []
     for rec in recs:
@@ -319,6 +325,10 @@ def ffsp_py_c02(recs, coll):
             jobs = sum(1 for a, _ in rec["steps"][:fd] if a < rec["J"])
             if jobs != rec["J"] * rec["S"]:
                 coll.fail("ffsp: step-bound-exceeded", G.ffsp_replay_obj(rec, "%d real-job steps before done, J*S = %d" % (jobs, rec["J"] * rec["S"]), -1))
+                bad = True
+            bound = ffsp_step_bound(rec)
+            if fd > bound:
+                coll.fail("ffsp: step-bound-exceeded", G.ffsp_replay_obj(rec, "%d steps before done, bound (J*S*(Dmax+2)+2)*S*M = %d" % (fd, bound), -1))
                 bad = True
         if not bad:
             ok.append(rec)
